@@ -41,14 +41,14 @@ theorem C09_recluster (X : ExpTab) (cfg : Cfg) (hbf : 2 ≤ cfg.bf) (F : Nat) (o
 /-- **C09 (refine)**: every cluster except the `n` largest (in report order) is contained in one
 cluster after the refinement; together with C01 the exploded ones are merely redistributed -/
 theorem C09_refine (X : ExpTab) (cfg : Cfg) (hbf : 2 ≤ cfg.bf) (F : Nat) (ops : List Op)
-    (hwf : ∀ op ∈ ops, op.WF F) (n : Int) (data : List Row) (im : Nat) (hdata : ∀ r ∈ data, r.length = F) :
+    (hwf : ∀ op ∈ ops, op.WF F) (n : Int) (data : List Row) (im : Nat) (srt : Bool) (hdata : ∀ r ∈ data, r.length = F) :
     CoarsensL (((run X (init cfg) ops).clusters true).drop n.toNat)
-      ((step X (run X (init cfg) ops) (.refine n data im)).1.clusters true) := by
+      ((step X (run X (init cfg) ops) (.refine n data im srt)).1.clusters true) := by
   have hinv := C01_invariant (refPolicy X) (refPolicy_valid X) cfg hbf F ops hwf
-  have hinv' : EInv F (fun _ => True) (step X (run X (init cfg) ops) (.refine n data im)).1 :=
+  have hinv' : EInv F (fun _ => True) (step X (run X (init cfg) ops) (.refine n data im srt)).1 :=
     step_inv (refPolicy X) (refPolicy_valid X) F _ (fun _ _ => trivial) _ hinv _
       ⟨hdata, fun _ _ _ _ => trivial, fun _ _ _ _ _ => trivial⟩
-  have hc := refine_coarsens (refPolicy X) (refPolicy_valid X) F _ hinv n data im hdata
+  have hc := refine_coarsens (refPolicy X) (refPolicy_valid X) F _ hinv n data im srt hdata
   have : ((run X (init cfg) ops).clusters true).drop n.toNat
       = ((run X (init cfg) ops).st.sortedClus.drop n.toNat).map (·.ids) := by
     simp [Est.clusters, List.map_drop]
